@@ -102,8 +102,107 @@ bool Model::bus_may_deliver(int r, const wire::Msg &m) {
 }
 
 void Model::emit_from_bus(int r, Exp e, bool fl) {
-  if (!bus_may_deliver(r, e.m)) { probes["bus_message_refused_by_receive_policy"]++; return; }
+  {
+    // monitors see what the bus originates whether or not the recipient's policy lets it through
+    Exp c = e;
+    capture_loose(c, r, fl);
+  }
+  if (!bus_may_deliver(r, e.m)) {
+    probes["bus_message_refused_by_receive_policy"]++;
+    // monitors may additionally be shown the refusal itself: an AccessDenied error "in reply to" the
+    // refused message, addressed to the bus
+    for (size_t i = 0; i < conns.size(); i++) {
+      if (!conns[i].alive || !conns[i].monitor) continue;
+      Exp x;
+      x.from_bus = true;
+      x.m = wire::Msg::error(1, 1, BUS, E_ACCESS);
+      x.m.set_field(wire::F_SENDER, wire::Value::string(BUS));
+      x.any_reply_serial = true;
+      x.ignore_body = true;
+      x.optional = true;
+      x.what = "monitor's copy of the refusal of a bus-originated message";
+      x.prop = "C18";
+      emit((int)i, x);
+    }
+    return;
+  }
   if (fl) emit_floating(r, std::move(e)); else emit(r, std::move(e));
+}
+
+static void resolve_value(const Model &md, wire::Value &v) {
+  if (v.type == 's') v.str = md.resolve(v.str);
+  for (auto &k : v.kids) resolve_value(md, k);
+}
+
+// a bus-originated error whose name the documents leave open: the monitor's copy is as loose as the original
+// When policy refuses a message for one of its recipients, monitors may be shown the refusal: an
+// AccessDenied error "in reply to" the message (addressed to its sender).
+void Model::monitors_may_see_refusal(int sender, const wire::Msg &m) {
+  if (sender < 0) return;   // a broadcast from the bus has no serial: there is nothing to reply to
+  for (size_t i = 0; i < conns.size(); i++) {
+    if (!conns[i].alive || !conns[i].monitor) continue;
+    Exp x;
+    x.from_bus = true;
+    x.m = wire::Msg::error(1, m.serial, sender >= 0 ? U(sender) : std::string(BUS), E_ACCESS);
+    x.m.set_field(wire::F_SENDER, wire::Value::string(BUS));
+    x.any_reply_serial = sender < 0;
+    x.any_destination = true;
+    x.ignore_body = true;
+    x.optional = true;
+    x.what = "monitor's copy of a refusal";
+    x.prop = "C18";
+    emit((int)i, x);
+  }
+}
+
+void Model::capture_loose(const Exp &orig, int addressed, bool fl) {
+  for (size_t i = 0; i < conns.size(); i++) {
+    Conn &k = conns[i];
+    if (!k.alive || !k.monitor) continue;
+    mr::MatchCtx ctx = ctx_for(-1, addressed, orig.m);
+    wire::Msg rm = orig.m;
+    for (auto &f : rm.fields) resolve_value(*this, f.val);
+    bool hit = false;
+    bool depends_on_error_name = false;
+    for (auto &r : k.mon_rules) { if (mr::matches(r, rm, ctx, false)) hit = true; }
+    (void)depends_on_error_name;
+    if (!hit) continue;
+    Exp e = orig;
+    e.last = false; e.pre = false;
+    if ((int)i == becoming_monitor) e.optional = true;
+    e.what = "monitor's copy of " + orig.what;
+    e.prop = "C18";
+    probes["monitor_captured_bus_message"]++;
+    if (fl) emit_floating((int)i, e); else emit((int)i, e);
+  }
+}
+
+void Model::capture(int sender, const wire::Msg &m0, int addressed, bool optional, bool fl) {
+  bool any = false;
+  for (auto &k : conns) if (k.alive && k.monitor) any = true;
+  if (!any) return;
+  wire::Msg m = m0;
+  mr::MatchCtx ctx = ctx_for(sender, addressed, m);
+  wire::Msg rm = m;
+  for (auto &f : rm.fields) resolve_value(*this, f.val);
+  for (auto &v : rm.body) resolve_value(*this, v);
+  for (size_t i = 0; i < conns.size(); i++) {
+    Conn &k = conns[i];
+    if (!k.alive || !k.monitor) continue;
+    bool hit = false;
+    for (auto &r : k.mon_rules) if (mr::matches(r, rm, ctx, false)) hit = true;
+    if (!hit) continue;
+    Exp e;
+    e.from_bus = sender < 0;
+    e.m = m;
+    e.optional = optional || (int)i == becoming_monitor;   // its own transition: "subsequently" leaves these open
+    e.ignore_body = sender < 0 && m.type == wire::T_ERROR;
+    e.any_error_name = false;
+    e.what = "monitor's copy";
+    e.prop = "C18";
+    probes[sender < 0 ? "monitor_captured_bus_message" : "monitor_captured_client_message"]++;
+    if (fl && !e.optional) emit_floating((int)i, e); else emit((int)i, e);
+  }
 }
 
 void Model::emit_floating(int r, Exp e) {
@@ -133,11 +232,6 @@ mr::MatchCtx Model::ctx_for(int sender, int addressed, const wire::Msg &m) {
   return ctx;
 }
 
-static void resolve_value(const Model &md, wire::Value &v) {
-  if (v.type == 's') v.str = md.resolve(v.str);
-  for (auto &k : v.kids) resolve_value(md, k);
-}
-
 bool Model::rule_matches_any(int rc, const wire::Msg &m0, int sender, int addressed, bool eavesdropping) {
   mr::MatchCtx ctx = ctx_for(sender, addressed, m0);
   // the message as the recipient would see it: symbolic names resolved where known
@@ -156,14 +250,14 @@ void Model::route(int sender, const wire::Msg &m, int addressed) {
   bool requested = false;
   if (is_reply && addressed >= 0 && sender >= 0)
     for (auto &p : pending)
-      if (p.caller == addressed && p.callee == sender && p.serial == m.reply_serial()) requested = true;
+      if (!p.doomed && p.caller == addressed && p.callee == sender && p.serial == m.reply_serial()) requested = true;
   if (addressed >= 0) {
     bool ok = true;
     if (is_reply && requested && sender >= 0) {
       // The slot is used up by the attempt: "at most one reply per call gets through" even if policy
       // then refuses this one (the documents do not say the call becomes answerable again).
       for (size_t i = 0; i < pending.size(); i++)
-        if (pending[i].caller == addressed && pending[i].callee == sender && pending[i].serial == m.reply_serial()) {
+        if (!pending[i].doomed && pending[i].caller == addressed && pending[i].callee == sender && pending[i].serial == m.reply_serial()) {
           pending.erase(pending.begin() + (long)i);
           break;
         }
@@ -220,7 +314,7 @@ void Model::route(int sender, const wire::Msg &m, int addressed) {
     emit(addressed, e);
     if (sender >= 0) {
       if (m.type == wire::T_CALL && !(m.flags & wire::FL_NO_REPLY_EXPECTED)) {
-        PendingReply p;
+        PendingReply p{};
         p.caller = sender; p.callee = addressed; p.serial = m.serial;
         p.deadline_us = lim.reply_timeout_ms < 0 ? -1 : now_us + lim.reply_timeout_ms * 1000;
         pending.push_back(p);
@@ -228,7 +322,9 @@ void Model::route(int sender, const wire::Msg &m, int addressed) {
 
     }
   }
-  route_matches(sender, m, addressed, requested);
+  // For eavesdroppers of a reply the "requested" state is not pinned down by the documents (the
+  // slot has just been used up for the addressee): their copies are neither required nor forbidden.
+  route_matches(sender, m, addressed, requested, is_reply && requested && (bool)can_send);
 }
 
 // Connections whose rules match.  Broadcasts (no destination) must arrive exactly once; copies of
@@ -236,20 +332,22 @@ void Model::route(int sender, const wire::Msg &m, int addressed) {
 void Model::route_matches(int sender, const wire::Msg &m, int addressed, bool requested, bool policy_lenient) {
   for (size_t rc = 0; rc < conns.size(); rc++) {
     Conn &k = conns[rc];
-    if (!k.alive || !k.hello || k.monitor || (int)rc == addressed) continue;
+    if (!k.alive || !k.hello || (int)rc == addressed) continue;
+    if (k.monitor && (int)rc != becoming_monitor) continue;   // a monitor has lost its ordinary rules
     bool eavesdropping = m.has_field(wire::F_DESTINATION);
     if (!rule_matches_any((int)rc, m, sender, addressed, eavesdropping)) continue;
     if (!policy_lenient) {
-      if (sender >= 0 && can_send && !can_send(sender, m, (int)rc, addressed, requested)) continue;
-      if (can_receive && !can_receive(sender, m, (int)rc, addressed, requested)) continue;
-    }
+      bool refused = (sender >= 0 && can_send && !can_send(sender, m, (int)rc, addressed, requested)) ||
+                     (can_receive && !can_receive(sender, m, (int)rc, addressed, requested));
+      if (refused) { monitors_may_see_refusal(sender, m); continue; }
+    } else if (can_send) monitors_may_see_refusal(sender, m);
     if (m.unix_fds() > 0 && !k.fdpass) continue;
     Exp e;
     e.from_bus = sender < 0;
     e.m = m;
     e.what = eavesdropping ? "eavesdropped copy" : "broadcast delivery";
     e.prop = eavesdropping ? "C05" : (sender < 0 ? "C04" : "C07");
-    e.optional = eavesdropping;
+    e.optional = eavesdropping || (int)rc == becoming_monitor;   // mid-transition: rules may or may not be gone yet
     if (eavesdropping) probes["eavesdrop_copy"]++; else probes["broadcast_copy"]++;
     emit((int)rc, e);
   }
@@ -263,6 +361,7 @@ static wire::Msg bus_signal(const char *member, std::vector<wire::Value> body) {
 
 void Model::name_owner_changed(const std::string &name, const std::string &o, const std::string &n) {
   wire::Msg s = bus_signal("NameOwnerChanged", {wire::Value::string(name), wire::Value::string(o), wire::Value::string(n)});
+  capture(-1, s, -1);
   route(-1, s, -1);
 }
 
@@ -349,27 +448,10 @@ void Model::disconnect(int c) {
     if (!q.empty() && q.front().c == c && q.size() >= 3) probes["owner_disconnect_two_waiters"]++;
     release_entry(c, n, true);
   }
-  // pending replies: callers waiting for c get NoReply; c's own outstanding calls vanish
-  for (size_t i = 0; i < pending.size();) {
-    if (pending[i].callee == c) {
-      Exp e;
-      e.from_bus = true;
-      e.m = wire::Msg::error(1, pending[i].serial, U(pending[i].caller), E_NOREPLY);
-      e.m.set_field(wire::F_SENDER, wire::Value::string(BUS));
-      e.ignore_body = true;
-      e.what = "NoReply because callee disconnected";
-      e.prop = "C09";
-      // produced by the bus's expiry machinery, not by the disconnect itself: position in the stream is free
-      emit_from_bus(pending[i].caller, e, true);
-      probes["noreply_on_disconnect"]++;
-      pending.erase(pending.begin() + (long)i);
-    } else if (pending[i].caller == c) {
-      pending.erase(pending.begin() + (long)i);
-    } else {
-      i++;
-    }
-  }
-  if (k.hello) name_owner_changed(U(c), U(c), "");
+  // pending replies: callers waiting for c get NoReply (sent when the bus expires the slot, probe H2c);
+  // c's own outstanding calls vanish
+  doom_slots_of(c, "noreply_on_disconnect");
+  if (k.hello) { name_signal(c, "NameLost", U(c)); name_owner_changed(U(c), U(c), ""); }
   if (k.hello) {
     // Rules of other connections whose sender= or destination= is this unique name can never match
     // again (unique names are not reused).  Whether the bus keeps or discards them is not specified:
@@ -395,29 +477,43 @@ void Model::disconnect(int c) {
   floating[(size_t)c].clear();
 }
 
+void Model::doom_slots_of(int c, const char *why) {
+  for (size_t i = 0; i < pending.size();) {
+    if (pending[i].caller == c) {
+      if (std::string(why) == "became_monitor_with_calls_to_answer") probes["became_monitor_with_calls_outstanding"]++;
+      pending.erase(pending.begin() + (long)i);
+      continue;
+    }
+    if (pending[i].callee == c && !pending[i].doomed) { pending[i].doomed = true; probes[why]++; }
+    i++;
+  }
+}
+
 void Model::reply_expired(int caller, int callee, uint32_t serial) {
   event++;
   for (size_t i = 0; i < pending.size(); i++) {
-    if (pending[i].caller != caller || pending[i].callee != callee || pending[i].serial != serial) continue;
-    PendingReply p = pending[i];
+    PendingReply &q = pending[i];
+    if (q.caller != caller || q.serial != serial) continue;
+    if (!(q.doomed || q.callee == callee)) continue;
+    bool doomed = q.doomed;
     pending.erase(pending.begin() + (long)i);
-    probes["reply_slot_expired"]++;
+    probes[doomed ? "noreply_sent_for_vanished_callee" : "reply_slot_expired"]++;
     Exp e;
     e.from_bus = true;
     e.m = wire::Msg::error(1, serial, U(caller), E_NOREPLY);
     e.m.set_field(wire::F_SENDER, wire::Value::string(BUS));
     e.ignore_body = true;
-    e.what = "NoReply because the reply timeout elapsed";
+    e.what = doomed ? "NoReply because the callee went away" : "NoReply because the reply timeout elapsed";
     e.prop = "C09";
     emit_from_bus(caller, e);
     return;
   }
-  // not found: the slot went away with its callee's disconnect (NoReply already predicted, floating)
+  // not found: the caller itself is gone
 }
 
 std::vector<PendingReply> Model::overdue() const {
   std::vector<PendingReply> v;
-  for (auto &p : pending) if (p.deadline_us >= 0 && p.deadline_us < now_us) v.push_back(p);
+  for (auto &p : pending) if (p.doomed || (p.deadline_us >= 0 && p.deadline_us < now_us)) v.push_back(p);
   return v;
 }
 
@@ -456,6 +552,7 @@ void Model::driver(int c, const wire::Msg &m) {
   auto arg_u = [&](size_t i) { return i < m.body.size() && m.body[i].type == 'u'; };
 
   if (iface == "org.freedesktop.DBus.Peer" && member == "Ping" && m.body.empty()) { reply_ok(c, m, {}); return; }
+  if (iface == "org.freedesktop.DBus.Monitoring" && member == "BecomeMonitor") { become_monitor(c, m); return; }
 
   if (!iface_ok) { reply_err(c, m, ""); return; }
 
@@ -716,6 +813,49 @@ void Model::driver(int c, const wire::Msg &m) {
   reply_err(c, m, "");
 }
 
+void Model::become_monitor(int c, const wire::Msg &m) {
+  Conn &k = conns[(size_t)c];
+  if (k.uid != 0 && k.uid != bus_uid) { reply_err(c, m, E_ACCESS); probes["become_monitor_denied"]++; return; }
+  if (m.body.size() != 2 || m.body[0].type != 'a' || m.body[0].sig != "s" || m.body[1].type != 'u') { reply_err(c, m, ""); return; }
+  if (m.body[1].u != 0) { reply_err(c, m, ""); return; }
+  std::vector<mr::Rule> rules;
+  for (auto &v : m.body[0].kids) {
+    mr::Rule r;
+    std::string why;
+    mr::ParseVerdict pv = mr::parse(v.str, &r, &why);
+    if (pv == mr::PV_INVALID) { reply_err(c, m, ""); probes["become_monitor_bad_rule"]++; return; }
+    if (pv == mr::PV_UNSPECIFIED) { k.unchecked = true; exp[(size_t)c].clear(); floating[(size_t)c].clear(); return; }
+    r.eavesdrop = true;
+    rules.push_back(r);
+  }
+  if (rules.empty()) { mr::Rule all; all.eavesdrop = true; rules.push_back(all); }
+  probes["became_monitor"]++;
+  bool queued_somewhere = false;
+  // the acknowledgement, then it gives up everything it holds
+  reply_ok(c, m, {});
+  // its filter is in force from here on; copies of what its own transition generates are neither
+  // required nor forbidden ("subsequently")
+  k.monitor = true;
+  k.mon_rules = rules;
+  becoming_monitor = c;
+  std::vector<std::string> held;
+  for (auto &kv : names) for (auto &q : kv.second) if (q.c == c) held.push_back(kv.first);
+  for (auto &n : held) { if (names[n].front().c != c) queued_somewhere = true; release_entry(c, n, true); }
+  if (queued_somewhere) probes["became_monitor_while_queued"]++;
+  if (!held.empty()) probes["became_monitor_while_owning"]++;
+  // calls it was expected to answer will not be answered: the callers get NoReply; its own calls are forgotten
+  doom_slots_of(c, "became_monitor_with_calls_to_answer");
+  name_signal(c, "NameLost", U(c));
+  name_owner_changed(U(c), U(c), "");
+  becoming_monitor = -1;
+  // "From that moment ... is never the addressee of a delivery": whether the NameLost signals of this
+  // very request still reach it is not specified
+  if (!exp[(size_t)c].empty() && exp[(size_t)c].back().event == event)
+    for (auto &it : exp[(size_t)c].back().items) if (it.pre) it.optional = true;
+  k.hello = false;           // owns nothing, is nobody's addressee
+  k.rules.clear(); k.rule_texts.clear(); k.rule_doomed.clear();
+}
+
 void Model::process(int c, const wire::Msg &orig) {
   event++;
   if (c < 0 || (size_t)c >= conns.size()) return;
@@ -752,7 +892,37 @@ void Model::process(int c, const wire::Msg &orig) {
       k.unchecked = true;
       exp[(size_t)c].clear();
       floating[(size_t)c].clear();
+      // monitors are shown it (unless it has no destination and is not a signal, see below); the
+      // connection has no name yet, the reference bus labels it ":not.active.yet"
+      if (m.has_field(wire::F_DESTINATION) || m.type == wire::T_SIGNAL) {
+        m.set_field(wire::F_SENDER, wire::Value::string(":not.active.yet"));
+        capture(c, m, -1);
+        monitors_may_see_refusal(c, m);
+      }
       return;
+    }
+  }
+  {
+    // what monitors are shown as the sender of a message from a connection that has no name yet: the
+    // reference bus writes ":not.active.yet", except that a successful Hello is re-labelled with the new name
+    bool named = k.hello;
+    if (!k.hello) {
+      long active = 0, same_uid = 0;
+      for (auto &o : conns) if (o.alive && o.hello) { active++; if (o.uid == k.uid) same_uid++; }
+      named = m.body.empty() && active < lim.max_completed_connections && same_uid < lim.max_connections_per_user;
+    }
+    m.set_field(wire::F_SENDER, wire::Value::string(named ? U(c) : std::string(":not.active.yet")));
+  }
+  bool destless_nonsignal = !m.has_field(wire::F_DESTINATION) && m.type != wire::T_SIGNAL;
+  if (!destless_nonsignal) capture(c, m, to_bus ? -1 : owner_of(dest));
+  else {
+    // listed known finding: the bus hands destination-less non-signals to its own library before
+    // capturing them, so monitors never see them (nor the replies)
+    bool would = false;
+    for (auto &o : conns) if (o.alive && o.monitor) would = true;
+    if (would) {
+      if (known.count("C18-destinationless-not-captured")) finding_hits["C18-destinationless-not-captured"]++;
+      else capture(c, m, -1);
     }
   }
   m.set_field(wire::F_SENDER, wire::Value::string(U(c)));
@@ -849,7 +1019,7 @@ bool satisfies(const Model &md, const Exp &e, const wire::Msg &o, std::string *w
   // no field the sender injected may survive
   for (auto &f : o.fields)
     if (f.code >= wire::F_CONTAINER_INSTANCE) return no("C03: unknown or container-instance header field delivered");
-  if (e.m.reply_serial() != o.reply_serial()) return no("reply_serial");
+  if (!e.any_reply_serial && e.m.reply_serial() != o.reply_serial()) return no("reply_serial");
   if (e.m.type == 0) {
     // a reply the bus produces itself: whatever its form, it must say it comes from the bus
     if (o.sender() != BUS) {
